@@ -114,6 +114,17 @@ class C01(core.Check):
         c.append({'k': 'file', 'bytes': [0xfe, 0x1a], 'name': 'X'})
         c.append({'k': 'file', 'bytes': [0xff], 'name': 'X'})
         c.append({'k': 'file', 'bytes': [0xfc, 1, 2, 3], 'name': 'X'})
+        import struct as _st
+        def _tok(lines):
+            o, a = b'\xff', 0x126e + 1
+            for n, b in lines:
+                r = _st.pack('<HH', (a + 4 + len(b) + 1) & 0xffff, n) + b + b'\0'
+                a += len(r); o += r
+            return list(o + b'\0\0\x1a')
+        c.append({'k': 'file', 'bytes': _tok([(10, b'\x91 1'), (65535, b'\x91 2')]), 'name': 'X'})
+        c.append({'k': 'file', 'bytes': _tok([(i + 1, b'\x8f' + b'x' * 240) for i in range(280)]), 'name': 'X'})
+        c.append({'k': 'prog', 'lines': ['WIDTH 40', 'SCREEN 0,,5,5', 'WIDTH 80', 'PRINT "x"'], 'default': False, 'video': 'vga'})
+        c.append({'k': 'prog', 'lines': ['SCREEN 7,,6,6', 'SCREEN 9', 'SCREEN 0,,0,0', 'PRINT "x"'], 'default': False, 'video': 'vga'})
         return c
 
     def stmt(self):
@@ -155,7 +166,8 @@ class C01(core.Check):
     FAULT = ['ERROR 5', 'ERROR 255', 'ERROR 0', 'PRINT 1/0', 'A=SQR(-1)', 'DIM A(-1)', 'GOTO 9999', 'NEXT', 'RETURN', 'WEND',
              'X$=MID$("",0)', 'A%=32768', 'PRINT CHR$(256)', 'OPEN "NOSUCH" FOR INPUT AS 1', 'READ Q', 'RESUME', 'FIELD #1,1 AS A$',
              'PRINT USING "";1', 'LOCATE 99', 'KILL "NOSUCH"', 'PRINT 1E38*1E38', 'DEF FNA(X)=X', 'X=FNQ(1)', 'CONT', 'STOP']
-    GFX_HIST = ['SCREEN 1', 'SCREEN 2', 'SCREEN 7', 'SCREEN 9', 'SCREEN 0', 'SCREEN 1,,0,0', 'SCREEN 7,,1,0', 'SCREEN 7,,0,1', 'SCREEN ,,1,1',
+    GFX_HIST = ['SCREEN 0,,5,5', 'SCREEN ,,7,7', 'SCREEN ,,4,6', 'SCREEN 7,,6,6', 'SCREEN 8,,3,3', 'SCREEN 9,,1,1', 'SCREEN 0,,0,0', 'WIDTH 40', 'WIDTH 80',
+                'PCOPY 5,0', 'PCOPY 0,7', 'SCREEN 1', 'SCREEN 2', 'SCREEN 7', 'SCREEN 9', 'SCREEN 0', 'SCREEN 1,,0,0', 'SCREEN 7,,1,0', 'SCREEN 7,,0,1', 'SCREEN ,,1,1',
                 'SCREEN ,,0,0', 'VIEW (10,10)-(50,50)', 'VIEW SCREEN (1,1)-(5,5),1,2', 'VIEW', 'WINDOW (0,0)-(1,1)', 'WINDOW SCREEN (-1,-1)-(1,1)',
                 'WINDOW', 'PCOPY 1,0', 'PCOPY 0,1', 'WIDTH 40', 'WIDTH 80', 'KEY ON', 'KEY OFF', 'CLS', 'PSET (5,5)', 'LINE (0,0)-(400,300),1,BF',
                 'CIRCLE (20,20),500', 'PAINT (1,1)', 'PRINT POINT(300,10)', 'GET (0,0)-(5,5),A', 'PUT (0,0),A', 'DIM A(100)', 'DRAW "C1U5"',
@@ -212,6 +224,21 @@ class C01(core.Check):
                 out.append(rng.choice(self.FAULT + self.AFTER))
         return out
 
+    def tokfile(self):
+        rng = self.rng
+        import struct
+        big = rng.random() < 0.3
+        n = rng.randrange(230, 300) if big else rng.randrange(1, 8)
+        out, addr = b'\xff', 0x126e + 1
+        num = rng.choice([0, 1, 10, 65000, 65520])
+        for i in range(n):
+            body = (b'\x8f' + b'x' * 238) if big else rng.choice([b'\x91 1', b'\x89 \x0e\xff\xff', b'\x8f', b'\x89 \x0e\x0a\x00', b'\x8d \x0e\xfa\xff:\x8e'])
+            rec = struct.pack('<HH', (addr + 4 + len(body) + 1) & 0xffff, num & 0xffff) + body + b'\0'
+            addr += len(rec)
+            out += rec
+            num = rng.choice([num + 1, num + 10, 65529, 65530, 65535, num, max(0, num - 5)]) if not big else num + 1
+        return list(out + b'\0\0\x1a')
+
     AFTER = ['CONT', 'RUN', 'LIST', 'PRINT ERR;ERL', 'RESUME', 'RESUME NEXT', 'EDIT 20', 'NEW', 'RENUM', 'GOTO 100', 'RETURN', 'STOP']
 
     def scenario(self):
@@ -266,6 +293,11 @@ class C01(core.Check):
                 out.append({'k': 'prog', 'lines': lines + [rng.choice(['RUN', 'RUN', 'LIST', 'RENUM', 'SAVE "T"', 'RUN:LIST'])],
                             'default': rng.random() < 0.5})
                 hist['program'] += 1
+            elif r > 0.97:
+                # well-formed tokenised files with unusual line numbers (65530..65535, descending, duplicates) or of a size
+                # around / beyond program memory (D14a, D13c)
+                out.append({'k': 'file', 'bytes': self.tokfile(), 'name': 'X'})
+                hist['file_wellformed'] = hist.get('file_wellformed', 0) + 1
             else:
                 magic = rng.choice([[0xff], [0xfe], [0xfc], [0xfd], [], [ord('1'), ord('0'), 32]])
                 body = common.rand_bytes(rng, rng.randrange(0, 80), pool_bias=0.5)
@@ -380,7 +412,8 @@ class C01(core.Check):
                     f.write(bytes(case['bytes']))
                 if case.get('default'):
                     return [0]
-                lines = ['LOAD "%s"' % case['name'], 'LIST', 'RUN', 'MERGE "%s"' % case['name'], 'CHAIN "%s"' % case['name']]
+                lines = ['LOAD "%s"' % case['name'], 'LIST', 'RENUM 65529', 'RENUM', 'LIST', 'RUN', 'MERGE "%s"' % case['name'], 'CHAIN "%s"' % case['name'],
+                         'SAVE "Y"', 'LOAD "Y"', 'DELETE 65530-', 'EDIT 65535']
             else:
                 lines = case['lines']
             for l in lines:
